@@ -284,6 +284,15 @@ def loaded (k : Kind) (specs : List LoadAtom) (bonds : List (Nat × Nat)) : Mol 
         s.coord (some s.charge)) (emptyMol k)
   bonds.foldl (fun acc p => (step acc (.connect (.idx (Int.ofNat p.1)) (.idx (Int.ofNat p.2)))).1) m
 
+/-- The copy constructor seen from the editing side: a new molecule built from the observable
+content of `m` (elements, labels, coordinate and charge payloads by position, bonds by the positions
+of their ends) — new atom and bond objects throughout. -/
+def cloneOf (m : Mol) : Mol :=
+  loaded m.kind
+    ((m.atoms.zip (m.rows.zip m.charges)).map (fun x =>
+      { elem := x.1.elem, label := x.1.label, coord := x.2.1.2, charge := x.2.2.2.getD zeroCharge }))
+    (m.bonds.map (fun b => (idxOfId m.ids b.a1, idxOfId m.ids b.a2)))
+
 /-! ### the invariant, as an executable check (the propositional form is in `Lemmas/MolEdit.lean`) -/
 
 def ownBelow (next : Nat) : AtomId → Bool
